@@ -34,7 +34,7 @@ type otherUE struct {
 	id int
 }
 
-func (o *otherUE) Error() string                          { return fmt.Sprintf("otherUE#%d", o.id) }
+func (o *otherUE) Error() string                         { return fmt.Sprintf("otherUE#%d", o.id) }
 func (o *otherUE) AsSessionReset() *corebgp.Notification { return o.n }
 
 type foreignErr struct{ id int }
@@ -58,8 +58,8 @@ type ueWrap struct {
 	inner error
 }
 
-func (u *ueWrap) Error() string                          { return "ueWrap(" + u.inner.Error() + ")" }
-func (u *ueWrap) Unwrap() error                          { return u.inner }
+func (u *ueWrap) Error() string                         { return "ueWrap(" + u.inner.Error() + ")" }
+func (u *ueWrap) Unwrap() error                         { return u.inner }
 func (u *ueWrap) AsSessionReset() *corebgp.Notification { return u.n }
 
 // errSpec describes one error a callback returns.
